@@ -252,6 +252,7 @@ def run(ctx):
                   f"{s.pool_kind}: applies self.knife to mp_calls in order",
                   f"{s.pool_kind}: applies {norm(s.worker_expr)} to {norm(s.task)}", key=s.pool_kind)
     pools.rule_P7(ctx, P, prog, ck)
+    pools.rule_P3_full_state(ctx, P, prog)
     pools.rule_P3_module_ref(ctx, P, prog, [CH])
     if pl is not None:
         d = next((n for n in ast.walk(pl.loop) if isinstance(n, ast.Dict)), None)
